@@ -297,3 +297,34 @@ for _kind in ("function", "class"):
        bound="a %s whose two defaults/values are expression ASTs of 8 shapes (constant arithmetic i*j and i**-j, call of a name, ().__class__.__base__.__subclasses__(), "
              "__import__('o?'), dict subscript, method call on a str constant, conditional with a call) with solver-chosen constants i in -2..60, j in 0..3 and one symbolic identifier letter: "
              "no sink is reached and nothing outside the safe grammar reaches eval" % _kind)(_code(_kind))
+
+
+# code.sync_property: WITHOUT --input-eval the input module of sync_properties is data, also when the static lookup of the input parameter fails ----------------------
+SYNC_INPUTS = ("kinds, limit = ('a', 'b'), 5\n", "if True:\n    kinds = ('a', 'b')\n", "import os as kinds\n", "for kinds in ((1, 2),):\n    pass\n", "kinds: tuple = ('a', 'b')\n",
+               "class C(object):\n    kinds: int = 5\n", "def kinds():\n    return 1\n", "other = 1\n")
+SYNC_PARAMS = ("kinds", "C.kinds", "missing", "limit")
+
+
+def sync_no_eval(src, par, wrap):
+    import cdd.compound.sync_properties as sp
+    from cdd.shared.source_transformer import ast_parse
+
+    in_src = SYNC_INPUTS[src] + "SENTINEL = [].append(1)\n"
+    out_src = "class K(object):\n    k: str = 's'\n"
+    mods = tuple(m for m in _all_cdd_modules()) + (sp,)
+    with monitored(mods, ()) as mon:
+        try:
+            sp.sync_property(False, SYNC_PARAMS[par], ast_parse(in_src, filename="<in>"), "<in>", "K.k", "Optional[{output_param}]" if wrap else None,
+                             ast_parse(out_src, filename="<out>"))
+        except Exception:
+            pass
+    if mon.evals:
+        return "eval reached although --input-eval was not given (input parameter %r, input module %r)" % (SYNC_PARAMS[par], SYNC_INPUTS[src])
+    return verdict(mon)
+
+
+ob("C17", "code.sync_property", {"src": R(0, len(SYNC_INPUTS) - 1), "par": R(0, len(SYNC_PARAMS) - 1), "wrap": BOOL}, enum=True, T=300,
+   funcs=["cdd.compound.sync_properties.sync_property", "cdd.shared.ast_utils.find_in_ast"],
+   assumes=["eval/exec/compile/__import__/import_module/open-for-write shadowed in every loaded cdd module INCLUDING cdd.compound.sync_properties (its eval is the documented exception only when input_eval is set)"],
+   bound="sync_property with input_eval=False on input modules %r and input parameter among %r (found statically or not), wrap on/off (solver-enumerated): no eval / exec / compile / import sink "
+         "is reached, whether the lookup succeeds or the request is refused" % (SYNC_INPUTS, SYNC_PARAMS))(sync_no_eval)
